@@ -106,14 +106,50 @@ struct ToolRun {
     timed_out: bool,
 }
 
-fn run_tool(cmd: &mut Command, timeout: Duration) -> std::io::Result<ToolRun> {
-    cmd.stdin(Stdio::null()).stdout(Stdio::piped()).stderr(Stdio::piped());
+/// The simulated stdout device: a pipe, a regular file (`> salida.json`) or a terminal (pty).
+fn run_tool(cmd: &mut Command, timeout: Duration, device: &str, scratch: &Path) -> std::io::Result<ToolRun> {
+    use std::os::unix::io::FromRawFd;
+    cmd.stdin(Stdio::null()).stderr(Stdio::piped());
+    let file_path = scratch.join("stdout_device.out");
+    let mut master_fd: i32 = -1;
+    match device {
+        "file" => {
+            cmd.stdout(Stdio::from(std::fs::File::create(&file_path)?));
+        }
+        "tty" => unsafe {
+            let mut m: libc::c_int = 0;
+            let mut sl: libc::c_int = 0;
+            if libc::openpty(&mut m, &mut sl, std::ptr::null_mut(), std::ptr::null_mut(), std::ptr::null_mut()) == 0 {
+                master_fd = m;
+                cmd.stdout(Stdio::from(std::fs::File::from_raw_fd(sl)));
+            } else {
+                cmd.stdout(Stdio::piped());
+            }
+        },
+        _ => {
+            cmd.stdout(Stdio::piped());
+        }
+    }
     let mut child = cmd.spawn()?;
-    let mut so = child.stdout.take().unwrap();
+    // the parent's copy of the slave end went into the Command; drop it so EOF/EIO arrives
+    cmd.stdout(Stdio::null());
+    let so_pipe = child.stdout.take();
     let mut se = child.stderr.take().unwrap();
     let h1 = std::thread::spawn(move || {
         let mut b = vec![];
-        let _ = so.read_to_end(&mut b);
+        if let Some(mut so) = so_pipe {
+            let _ = so.read_to_end(&mut b);
+        } else if master_fd >= 0 {
+            let mut f = unsafe { std::fs::File::from_raw_fd(master_fd) };
+            let mut buf = [0u8; 65536];
+            loop {
+                match f.read(&mut buf) {
+                    Ok(0) => break,
+                    Ok(n) => b.extend_from_slice(&buf[..n]),
+                    Err(_) => break, // EIO when the slave side is closed
+                }
+            }
+        }
         b
     });
     let h2 = std::thread::spawn(move || {
@@ -136,10 +172,15 @@ fn run_tool(cmd: &mut Command, timeout: Duration) -> std::io::Result<ToolRun> {
             }
         }
     };
+    let mut out_bytes = h1.join().unwrap_or_default();
+    if device == "file" {
+        out_bytes = std::fs::read(&file_path).unwrap_or_default();
+        let _ = std::fs::remove_file(&file_path);
+    }
     Ok(ToolRun {
         status: st.code(),
         signal: st.code().is_none(),
-        stdout: h1.join().unwrap_or_default(),
+        stdout: out_bytes,
         stderr: h2.join().unwrap_or_default(),
         timed_out,
     })
@@ -271,8 +312,15 @@ pub fn run(ctx: &mut WorkerCtx, job: &Value) -> JobOutput {
         let _ = std::fs::write(&out_ind, &stale);
     }
     if tool == "hulc2model" {
+        // argument variants that mean the same thing: a repeated flag, an option the tool ignores
+        if job["args_variant"] == "unknown_opt" {
+            cmd.arg("--sin-efecto");
+        }
         if use_extra {
             cmd.arg("--use-extra");
+            if job["args_variant"] == "dup_flag" {
+                cmd.arg("--use-extra");
+            }
         }
         cmd.arg(&given);
     } else {
@@ -290,7 +338,8 @@ pub fn run(ctx: &mut WorkerCtx, job: &Value) -> JobOutput {
             cmd.arg("-v");
         }
     }
-    let run = match run_tool(&mut cmd, Duration::from_secs(120)) {
+    let device = job["stdout_to"].as_str().unwrap_or("pipe").to_string();
+    let run = match run_tool(&mut cmd, Duration::from_secs(120), &device, &ctx.scratch) {
         Ok(r) => r,
         Err(e) => {
             return JobOutput {
